@@ -121,8 +121,22 @@ def build(cfg):
     return _build(cfg)
 
 
+def _orient(cfg):
+    """pair dictionaries keyed 'a-b' in either orientation -> keyed with a before b in the type list"""
+    T = list(cfg['types'])
+    out = dict(cfg)
+    for name in ('pot', 'clo', 'omega'):
+        d = {}
+        for a, b in pairs(T):
+            k1, k2 = '%s-%s' % (a, b), '%s-%s' % (b, a)
+            d[k1] = cfg[name][k1] if k1 in cfg[name] else cfg[name][k2]
+        out[name] = d
+    return out
+
+
 def _build(cfg):
     import pyPRISM
+    cfg = _orient(cfg)
     T = list(cfg['types'])
     ns = cfg.get('num_style', 'float')
     cfg = dict(cfg, kT=_num(cfg['kT'], ns), rho={t: _num(v, ns) for t, v in cfg['rho'].items()},
@@ -186,13 +200,13 @@ def solve(cfg, method='krylov', guess=None, maxiter=None):
     return s, p, res
 
 
-SYS2 = {'types': ['A', 'B'], 'kT': 1.0, 'dr': 0.125, 'length': 256,
+SYS2 = {'types': ['B', 'A'], 'kT': 1.0, 'dr': 0.125, 'length': 256,
         'rho': {'A': 0.35, 'B': 0.2}, 'diam': {'A': 1.0, 'B': 1.0},
         'pot': {'A-A': ['HardSphere'], 'A-B': ['Exponential', 0.25, 0.5], 'B-B': ['HardSphere']},
         'clo': {'A-A': ['PY'], 'A-B': ['PY'], 'B-B': ['HNC']},
         'omega': {'A-A': ['Gaussian', 1.0, 8], 'A-B': ['NoIntra'], 'B-B': ['SingleSite']}}
 
-SYS3 = {'types': ['A', 'B', 'C'], 'kT': 1.25, 'dr': 0.125, 'length': 256,
+SYS3 = {'types': ['B', 'C', 'A'], 'kT': 1.25, 'dr': 0.125, 'length': 256,
         'rho': {'A': 0.25, 'B': 0.15, 'C': 0.02}, 'diam': {'A': 1.0, 'B': 1.0, 'C': 2.0},
         'pot': {'A-A': ['HardSphere'], 'A-B': ['HardSphere'], 'A-C': ['Exponential', 0.5, 0.5],
                 'B-B': ['HardSphere'], 'B-C': ['HardSphere'], 'C-C': ['HardSphere']},
